@@ -3,6 +3,21 @@
 TECH = 'TLA+ specification model-checked by TLC; '
 
 CHECKS = {
+    'C18': dict(
+        text='FxPytree.tla tabulates, per operator class, the dynamic fields (array / boolean-array / python-int leaves, operator '
+             'sub-trees) and the static ones, and the control dependencies of mv (values deciding shapes or Python branches); a mode '
+             '(eager, jit over a closure, filtering jit, flatten/unflatten) traces some field types, and TLC checks for all 25 class '
+             'entries x 4 modes that mv can run exactly when the statement says (everything except boolean-mask selection under the '
+             'filtering jit), that every field survives the round trip, and for the landscapes that the aux_data keys are constructor '
+             'parameters. Concrete subjects of every class come from MC_Terms with their exact matrices; each is executed in the four '
+             'modes and both x64 modes (values, shapes, dtypes equal to eager; eager equal to the spec matrix), plus a boolean-mask '
+             'IndexOperator and a PackOperator on a Stokes container; Healpix/Frequency landscapes are flattened and unflattened '
+             '(attributes, structure, zeros(), world2index, jit over a closure). The class tables are compared with the real '
+             'dataclass fields / static markers by introspection and differences are recorded as drift.',
+        note='The control-dependency table is a reading of the code whose truth is established by the executions; the model is '
+             'the enumerator and the statement of why each field must be static.',
+        technique=TECH + 'class/mode table checked by TLC, every subject executed in the four modes on the real library',
+        design_ref='DESIGN.md §4 C18'),
     'C16': dict(
         text='FxPointing.tla transcribes get_rotation_matrix entry by entry over exact (cos, sin) pairs (quarter turns and '
              'Pythagorean angles) and TLC checks it equals Rz(phi) Ry(theta) Rz(psi), is orthogonal with determinant one '
